@@ -191,7 +191,7 @@ pub fn kv_reset() {
 }
 
 /// Copy element: (key, uid). Ordering / equality / hash look at the key only.
-#[derive(Clone, Copy, Debug, Default)]
+#[derive(Clone, Copy, Debug, Default, serde::Serialize, serde::Deserialize)]
 pub struct Kv {
     pub key: u32,
     pub uid: u32,
